@@ -217,6 +217,8 @@ structure Inv (r : Run) : Prop where
   sub : r.st.entries.Sublist r.added
   /-- the atomic counter XLEN reads is the number of present entries -/
   len : r.st.length = r.st.entries.length
+  /-- no accepted ID is 0-0 -/
+  pos : ∀ e ∈ r.added, Id.zero < e.1
 
 theorem Inv.sorted {r : Run} (h : Inv r) : Sorted r.st.entries := h.incr.sublist h.sub
 
@@ -228,8 +230,8 @@ def push (s : Code.Stream) (id : Id) (f : Fields) : Code.Stream :=
   { entries := s.entries ++ [(id, f)], lastId := id, atomMs := id.ms, atomSeq := id.seq, length := s.length + 1 }
 
 /-- appending an entry whose ID exceeds `last_id` and making it the last ID keeps the invariant -/
-theorem inv_push {r : Run} (h : Inv r) (id : Id) (f : Fields) (w : Bool) (hgt : r.st.lastId < id) :
-    Inv ⟨push r.st id f, r.added ++ [(id, f)], w⟩ := by
+theorem inv_push {r : Run} (h : Inv r) (id : Id) (f : Fields) (w l : Bool) (hgt : r.st.lastId < id) :
+    Inv ⟨push r.st id f, r.added ++ [(id, f)], w, l⟩ := by
   constructor
   · simp [push]
   · intro e he
@@ -248,11 +250,21 @@ theorem inv_push {r : Run} (h : Inv r) (id : Id) (f : Fields) (w : Bool) (hgt : 
     exact Id.lt_of_le_of_lt (h.bound a ha) hgt
   · exact List.Sublist.append h.sub (List.Sublist.refl _)
   · simp [push, h.len]
+  · intro e he
+    simp only [List.mem_append, List.mem_singleton] at he
+    rcases he with he | rfl
+    · exact h.pos e he
+    · exact Id.lt_of_le_of_lt (Id.zero_le _) hgt
 
-theorem inv_same {r : Run} (h : Inv r) (w : Bool) : Inv ⟨r.st, r.added, w⟩ :=
-  ⟨h.last, h.bound, h.lastMem, h.lastZero, h.incr, h.sub, h.len⟩
+theorem inv_same {r : Run} (h : Inv r) (w l : Bool) : Inv ⟨r.st, r.added, w, l⟩ :=
+  ⟨h.last, h.bound, h.lastMem, h.lastZero, h.incr, h.sub, h.len, h.pos⟩
 
-/-- the three outcomes of `add_with_id` -/
+/-- removing entries (and adjusting the counter) keeps the invariant -/
+theorem inv_shrink {r : Run} (h : Inv r) (es : List Entry) (n : Nat) (w l : Bool)
+    (hs : es.Sublist r.st.entries) (hn : n = es.length) :
+    Inv ⟨{ r.st with entries := es, length := n }, r.added, w, l⟩ :=
+  ⟨h.last, h.bound, h.lastMem, h.lastZero, h.incr, hs.trans h.sub, hn, h.pos⟩
+
 theorem addWithId_cases (id : Id) (f : Fields) (s : Code.Stream) :
     (id ≤ s.lastId ∧ addWithId id f s = (s, false)) ∨
     (s.lastId < id ∧ (bsearch s.entries id).1 = true ∧ addWithId id f s = (s, false)) ∨
@@ -338,6 +350,134 @@ theorem xaddAuto_cases (q : Quirks) (now : Nat) (f : Fields) (s : Code.Stream) :
   · right; refine ⟨h, ?_⟩
     rw [if_neg]; simpa using h
 
+
+/-! ### SAVE + restart -/
+
+/-- one step of the loader -/
+def addStep (acc : Code.Stream) (e : Entry) : Code.Stream := (addWithId e.1 e.2 acc).1
+
+theorem rebuild_def (es : List Entry) : rebuild es = es.foldl addStep Stream.new := rfl
+
+theorem addStep_cases (acc : Code.Stream) (e : Entry) :
+    ((e.1 ≤ acc.lastId ∨ (bsearch acc.entries e.1).1 = true) ∧ addStep acc e = acc) ∨
+    (acc.lastId < e.1 ∧ (bsearch acc.entries e.1).1 = false ∧ addStep acc e = push acc e.1 e.2) := by
+  unfold addStep
+  rcases addWithId_cases e.1 e.2 acc with ⟨h1, he⟩ | ⟨_, h2, he⟩ | ⟨h1, h2, he⟩
+  · left; exact ⟨Or.inl h1, by rw [he]⟩
+  · left; exact ⟨Or.inr h2, by rw [he]⟩
+  · right; exact ⟨h1, h2, by rw [he]⟩
+
+/-- the last ID a loader ends with: that of the last entry, `base` if there is none -/
+def lastIdOf (base : Id) : List Entry → Id
+  | [] => base
+  | e :: es => lastIdOf e.1 es
+
+theorem lastIdOf_mem (base : Id) (es : List Entry) : lastIdOf base es = base ∨ ∃ e ∈ es, e.1 = lastIdOf base es := by
+  induction es generalizing base with
+  | nil => left; rfl
+  | cons e es ih =>
+    right
+    rcases ih e.1 with h | ⟨x, hx, hxe⟩
+    · exact ⟨e, by simp, by simp [lastIdOf, h]⟩
+    · exact ⟨x, by simp [hx], by simpa [lastIdOf] using hxe⟩
+
+theorem stream_eta (s : Code.Stream) (hl : s.lastId = ⟨s.atomMs, s.atomSeq⟩) (hn : s.length = s.entries.length) :
+    s = ⟨s.entries, s.lastId, s.lastId.ms, s.lastId.seq, s.entries.length⟩ := by
+  cases s with
+  | mk es l a b n =>
+    simp only at hl hn
+    subst hl; subst hn; rfl
+
+/-- re-adding a strictly increasing list above the accumulator's last ID appends it all -/
+theorem foldl_addStep_spec (es : List Entry) : ∀ (acc : Code.Stream),
+    acc.lastId = ⟨acc.atomMs, acc.atomSeq⟩ → acc.length = acc.entries.length →
+    Sorted (acc.entries ++ es) → (∀ x ∈ acc.entries, x.1 ≤ acc.lastId) → (∀ e ∈ es, acc.lastId < e.1) →
+    es.foldl addStep acc =
+      ⟨acc.entries ++ es, lastIdOf acc.lastId es, (lastIdOf acc.lastId es).ms, (lastIdOf acc.lastId es).seq,
+        (acc.entries ++ es).length⟩ := by
+  induction es with
+  | nil =>
+    intro acc hl hn _ _ _
+    simp only [List.foldl_nil, List.append_nil, lastIdOf]
+    exact stream_eta acc hl hn
+  | cons e es ih =>
+    intro acc hl hn hs hb hlt
+    have hsacc : Sorted acc.entries := (List.pairwise_append.1 hs).1
+    have hses : Sorted (e :: es) := (List.pairwise_append.1 hs).2.1
+    have hpush : addStep acc e = push acc e.1 e.2 := by
+      rcases addStep_cases acc e with ⟨h1 | h1, _⟩ | ⟨_, _, he⟩
+      · exfalso; have := hlt e (by simp); id_omega
+      · exfalso
+        obtain ⟨x, hx, hxe⟩ := (bsearch_found_iff hsacc e.1).1 h1
+        have h2 := hb x hx
+        have h3 := hlt e (by simp)
+        rw [hxe] at h2
+        id_omega
+      · exact he
+    simp only [List.foldl_cons, hpush]
+    rw [ih (push acc e.1 e.2) (by simp [push]) (by simp [push, hn])
+      (by simpa [push, List.append_assoc] using hs)
+      (by
+        intro x hx
+        simp only [push, List.mem_append, List.mem_singleton] at hx ⊢
+        rcases hx with hx | rfl
+        · exact Id.le_of_lt (Id.lt_of_le_of_lt (hb x hx) (hlt e (by simp)))
+        · exact Id.le_refl _)
+      (by
+        intro y hy
+        exact (sorted_cons.1 hses).1 y hy)]
+    simp [push, lastIdOf, List.append_assoc]
+
+theorem rebuild_spec {es : List Entry} (hs : Sorted es) (hp : ∀ e ∈ es, Id.zero < e.1) :
+    rebuild es = ⟨es, lastIdOf Id.zero es, (lastIdOf Id.zero es).ms, (lastIdOf Id.zero es).seq, es.length⟩ := by
+  rw [rebuild_def]
+  have h0 : Stream.new = ⟨[], Id.zero, 0, 0, 0⟩ := rfl
+  rw [h0]
+  have := foldl_addStep_spec es ⟨[], Id.zero, 0, 0, 0⟩ rfl rfl (by simpa using hs) (by intro x hx; cases hx)
+    (by simpa using hp)
+  simpa using this
+
+/-- With the last ID persisted - or when nothing above the present entries had been removed - a restart
+    gives back exactly the state that was saved. -/
+theorem restart_eq (q : Quirks) {r : Run} (h : Inv r)
+    (hk : q.persistLastId = true ∨ (restart q r.st).lastId = r.st.lastId) : restart q r.st = r.st := by
+  have hpos : ∀ e ∈ r.st.entries, Id.zero < e.1 := fun e he => h.pos e (h.sub.subset he)
+  have hreb := rebuild_spec h.sorted hpos
+  have hle : lastIdOf Id.zero r.st.entries ≤ r.st.lastId := by
+    rcases lastIdOf_mem Id.zero r.st.entries with h0 | ⟨e, he, hee⟩
+    · rw [h0]; exact Id.zero_le _
+    · rw [← hee]; exact h.bound e (h.sub.subset he)
+  have heta := stream_eta r.st h.last h.len
+  have same : lastIdOf Id.zero r.st.entries = r.st.lastId → rebuild r.st.entries = r.st := by
+    intro he; rw [hreb, he]; exact heta.symm
+  by_cases hp : q.persistLastId = true
+  · unfold restart raiseLastId
+    rw [if_pos hp]
+    by_cases hlt : (rebuild r.st.entries).lastId < r.st.lastId
+    · rw [if_pos hlt, hreb]
+      simp only
+      exact heta.symm
+    · rw [if_neg hlt]
+      apply same
+      rw [hreb] at hlt
+      simp only at hlt
+      id_omega
+  · have hl : (restart q r.st).lastId = r.st.lastId := by
+      rcases hk with hk | hk
+      · exact absurd hk hp
+      · exact hk
+    have hp' : q.persistLastId = false := by
+      cases hq : q.persistLastId with
+      | false => rfl
+      | true => exact absurd hq hp
+    unfold restart at hl ⊢
+    simp only [hp', Bool.false_eq_true, if_false] at hl ⊢
+    apply same
+    rw [hreb] at hl
+    exact hl
+
+/-! ### the flags only ever go up -/
+
 theorem step_wrapped_mono (q : Quirks) (r : Run) (op : Op) (h : r.wrapped = true) : (step q r op).wrapped = true := by
   cases op with
   | addAuto now f =>
@@ -351,12 +491,34 @@ theorem step_wrapped_mono (q : Quirks) (r : Run) (op : Op) (h : r.wrapped = true
   | del ids => exact h
   | trimCount n => exact h
   | trimMinId m => exact h
+  | restart => exact h
+
+theorem step_lost_mono (q : Quirks) (r : Run) (op : Op) (h : r.lost = true) : (step q r op).lost = true := by
+  cases op with
+  | addAuto now f =>
+    simp only [step]
+    cases xaddAuto q now f r.st with
+    | mk st' o => cases o <;> exact h
+  | addId id f =>
+    simp only [step]
+    cases addWithId id f r.st with
+    | mk st' b => cases b <;> exact h
+  | del ids => exact h
+  | trimCount n => exact h
+  | trimMinId m => exact h
+  | restart => simp [step, h]
 
 theorem foldl_wrapped_mono (q : Quirks) (ops : List Op) (r : Run) (h : r.wrapped = true) :
     (ops.foldl (step q) r).wrapped = true := by
   induction ops generalizing r with
   | nil => exact h
   | cons op ops ih => exact ih _ (step_wrapped_mono q r op h)
+
+theorem foldl_lost_mono (q : Quirks) (ops : List Op) (r : Run) (h : r.lost = true) :
+    (ops.foldl (step q) r).lost = true := by
+  induction ops generalizing r with
+  | nil => exact h
+  | cons op ops ih => exact ih _ (step_lost_mono q r op h)
 
 theorem step_addAuto_wrapped (q : Quirks) (r : Run) (now : Nat) (f : Fields) :
     (step q r (.addAuto now f)).wrapped = (r.wrapped || wrapsAt now r.st) := by
@@ -365,7 +527,8 @@ theorem step_addAuto_wrapped (q : Quirks) (r : Run) (now : Nat) (f : Fields) :
   | mk st' o => cases o <;> rfl
 
 theorem step_inv (q : Quirks) (r : Run) (op : Op) (h : Inv r)
-    (hw : q.seqCarry = true ∨ (step q r op).wrapped = false) : Inv (step q r op) := by
+    (hw : q.seqCarry = true ∨ (step q r op).wrapped = false)
+    (hl : q.persistLastId = true ∨ (step q r op).lost = false) : Inv (step q r op) := by
   cases op with
   | addAuto now f =>
     have hw' : q.seqCarry = true ∨ wrapsAt now r.st = false := by
@@ -376,58 +539,143 @@ theorem step_inv (q : Quirks) (r : Run) (op : Op) (h : Inv r)
         exact hw.2
     simp only [step]
     rcases xaddAuto_cases q now f r.st with ⟨_, _, he⟩ | ⟨hnt, he⟩
-    · rw [he]; exact inv_same h _
+    · rw [he]; exact inv_same h _ _
     · rw [he]
       simp only [addAuto]
       cases hn : nextAuto q now r.st with
-      | none => exact inv_same h _
+      | none => exact inv_same h _ _
       | some p =>
         obtain ⟨id, ms, sq⟩ := p
         obtain ⟨hgt, rfl, rfl⟩ := nextAuto_gt q now r.st h.last hw' hnt id ms sq hn
-        exact inv_push h id f _ hgt
+        exact inv_push h id f _ _ hgt
   | addId id f =>
     simp only [step]
     rcases addWithId_cases id f r.st with ⟨_, he⟩ | ⟨_, _, he⟩ | ⟨hgt, _, he⟩
-    · rw [he]; exact inv_same h _
-    · rw [he]; exact inv_same h _
-    · rw [he]; exact inv_push h id f _ hgt
+    · rw [he]; exact inv_same h _ _
+    · rw [he]; exact inv_same h _ _
+    · rw [he]; exact inv_push h id f _ _ hgt
   | del ids =>
     simp only [step, Code.delete]
-    have hl := deleteIds_length r.st.entries ids
-    refine ⟨h.last, h.bound, h.lastMem, h.lastZero, h.incr, (deleteIds_sublist _ _).trans h.sub, ?_⟩
-    simp only [h.len]; omega
+    have hlen := deleteIds_length r.st.entries ids
+    exact inv_shrink h _ _ _ _ (deleteIds_sublist _ _) (by rw [h.len]; omega)
   | trimCount n =>
     simp only [step, trimByCount]
     split
-    · exact inv_same h _
-    · refine ⟨h.last, h.bound, h.lastMem, h.lastZero, h.incr, (List.drop_sublist _ _).trans h.sub, ?_⟩
-      simp [h.len]
+    · exact inv_same h _ _
+    · exact inv_shrink h _ _ _ _ (List.drop_sublist _ _) (by simp [h.len])
   | trimMinId m =>
     simp only [step, trimByMinId]
     split
-    · exact inv_same h _
-    · refine ⟨h.last, h.bound, h.lastMem, h.lastZero, h.incr, (List.drop_sublist _ _).trans h.sub, ?_⟩
-      simp [h.len]
+    · exact inv_same h _ _
+    · exact inv_shrink h _ _ _ _ (List.drop_sublist _ _) (by simp [h.len])
+  | restart =>
+    have hk : q.persistLastId = true ∨ (restart q r.st).lastId = r.st.lastId := by
+      rcases hl with hl | hl
+      · exact Or.inl hl
+      · right
+        simp only [step, Bool.or_eq_false_iff, decide_eq_false_iff_not, ne_eq, Decidable.not_not] at hl
+        exact hl.2
+    simp only [step]
+    rw [restart_eq q h hk]
+    exact inv_same h _ _
 
 theorem foldl_inv (q : Quirks) (ops : List Op) (r : Run) (h : Inv r)
-    (hw : q.seqCarry = true ∨ (ops.foldl (step q) r).wrapped = false) : Inv (ops.foldl (step q) r) := by
+    (hw : q.seqCarry = true ∨ (ops.foldl (step q) r).wrapped = false)
+    (hl : q.persistLastId = true ∨ (ops.foldl (step q) r).lost = false) : Inv (ops.foldl (step q) r) := by
   induction ops generalizing r with
   | nil => exact h
   | cons op ops ih =>
-    simp only [List.foldl_cons] at hw ⊢
-    apply ih _ _ hw
+    simp only [List.foldl_cons] at hw hl ⊢
+    apply ih _ _ hw hl
     apply step_inv q r op h
-    rcases hw with hw | hw
-    · exact Or.inl hw
-    · right
-      cases hs : (step q r op).wrapped with
-      | false => rfl
-      | true => rw [foldl_wrapped_mono q ops _ hs] at hw; cases hw
+    · rcases hw with hw | hw
+      · exact Or.inl hw
+      · right
+        cases hs : (step q r op).wrapped with
+        | false => rfl
+        | true => rw [foldl_wrapped_mono q ops _ hs] at hw; cases hw
+    · rcases hl with hl | hl
+      · exact Or.inl hl
+      · right
+        cases hs : (step q r op).lost with
+        | false => rfl
+        | true => rw [foldl_lost_mono q ops _ hs] at hl; cases hl
 
-theorem run_inv (q : Quirks) (ops : List Op) (hw : q.seqCarry = true ∨ (run q ops).wrapped = false) :
-    Inv (run q ops) := foldl_inv q ops _ inv_init hw
+theorem run_inv (q : Quirks) (ops : List Op) (hw : q.seqCarry = true ∨ (run q ops).wrapped = false)
+    (hl : q.persistLastId = true ∨ (run q ops).lost = false) :
+    Inv (run q ops) := foldl_inv q ops _ inv_init hw hl
+
+/-- the last ID never goes down, whatever the operation (restart included) -/
+theorem step_lastId_le (q : Quirks) (r : Run) (op : Op) (h : Inv r)
+    (hw : q.seqCarry = true ∨ (step q r op).wrapped = false)
+    (hl : q.persistLastId = true ∨ (step q r op).lost = false) :
+    r.st.lastId ≤ (step q r op).st.lastId := by
+  cases op with
+  | addAuto now f =>
+    have hw' : q.seqCarry = true ∨ wrapsAt now r.st = false := by
+      rcases hw with hw | hw
+      · exact Or.inl hw
+      · right
+        rw [step_addAuto_wrapped, Bool.or_eq_false_iff] at hw
+        exact hw.2
+    simp only [step]
+    rcases xaddAuto_cases q now f r.st with ⟨_, _, he⟩ | ⟨hnt, he⟩
+    · rw [he]; exact Id.le_refl _
+    · rw [he]
+      simp only [addAuto]
+      cases hn : nextAuto q now r.st with
+      | none => exact Id.le_refl _
+      | some p =>
+        obtain ⟨id, ms, sq⟩ := p
+        obtain ⟨hgt, _, _⟩ := nextAuto_gt q now r.st h.last hw' hnt id ms sq hn
+        exact Id.le_of_lt hgt
+  | addId id f =>
+    simp only [step]
+    rcases addWithId_cases id f r.st with ⟨_, he⟩ | ⟨_, _, he⟩ | ⟨hgt, _, he⟩
+    · rw [he]; exact Id.le_refl _
+    · rw [he]; exact Id.le_refl _
+    · rw [he]; exact Id.le_of_lt hgt
+  | del ids => exact Id.le_refl _
+  | trimCount n =>
+    simp only [step, trimByCount]
+    split <;> exact Id.le_refl _
+  | trimMinId m =>
+    simp only [step, trimByMinId]
+    split <;> exact Id.le_refl _
+  | restart =>
+    have hk : q.persistLastId = true ∨ (restart q r.st).lastId = r.st.lastId := by
+      rcases hl with hl | hl
+      · exact Or.inl hl
+      · right
+        simp only [step, Bool.or_eq_false_iff, decide_eq_false_iff_not, ne_eq, Decidable.not_not] at hl
+        exact hl.2
+    simp only [step]
+    rw [restart_eq q h hk]
+    exact Id.le_refl _
 
 /-! ### XLEN needs no hypothesis at all -/
+
+theorem foldl_addStep_len (es : List Entry) (acc : Code.Stream) (h : acc.length = acc.entries.length) :
+    (es.foldl addStep acc).length = (es.foldl addStep acc).entries.length := by
+  induction es generalizing acc with
+  | nil => exact h
+  | cons e es ih =>
+    simp only [List.foldl_cons]
+    apply ih
+    rcases addStep_cases acc e with ⟨_, he⟩ | ⟨_, _, he⟩
+    · rw [he]; exact h
+    · rw [he]; simp [push, h]
+
+theorem restart_len (q : Quirks) (s : Code.Stream) :
+    (restart q s).length = (restart q s).entries.length := by
+  have := foldl_addStep_len s.entries Stream.new rfl
+  rw [← rebuild_def] at this
+  unfold restart raiseLastId
+  split
+  · split
+    · exact this
+    · exact this
+  · exact this
 
 theorem step_len (q : Quirks) (r : Run) (op : Op) (h : r.st.length = r.st.entries.length) :
     (step q r op).st.length = (step q r op).st.entries.length := by
@@ -461,6 +709,7 @@ theorem step_len (q : Quirks) (r : Run) (op : Op) (h : r.st.length = r.st.entrie
     split
     · exact h
     · simp [h]
+  | restart => exact restart_len q r.st
 
 theorem foldl_len (q : Quirks) (ops : List Op) (r : Run) (h : r.st.length = r.st.entries.length) :
     (ops.foldl (step q) r).st.length = (ops.foldl (step q) r).st.entries.length := by
@@ -475,47 +724,102 @@ def seqRoom (slack : Nat) : Op → Prop
   | .addId id _ => id.seq + slack < u64Mod
   | _ => True
 
+/-- every sequence number the state holds (generator, last ID, entries) is `k` below the top -/
+def RoomSt (k : Nat) (s : Code.Stream) : Prop :=
+  s.atomSeq + k < u64Mod ∧ s.lastId.seq + k < u64Mod ∧ ∀ e ∈ s.entries, e.1.seq + k < u64Mod
+
+theorem RoomSt.mono {k : Nat} {s : Code.Stream} (h : RoomSt (k + 1) s) : RoomSt k s :=
+  ⟨by have := h.1; omega, by have := h.2.1; omega, fun e he => by have := h.2.2 e he; omega⟩
+
+theorem roomSt_push {k : Nat} {s : Code.Stream} (h : RoomSt k s) (id : Id) (f : Fields) (hid : id.seq + k < u64Mod) :
+    RoomSt k (push s id f) := by
+  refine ⟨hid, hid, ?_⟩
+  intro e he
+  simp only [push, List.mem_append, List.mem_singleton] at he
+  rcases he with he | rfl
+  · exact h.2.2 e he
+  · exact hid
+
+theorem roomSt_sub {k : Nat} {s : Code.Stream} (h : RoomSt k s) (es : List Entry) (n : Nat) (hs : es.Sublist s.entries) :
+    RoomSt k { s with entries := es, length := n } :=
+  ⟨h.1, h.2.1, fun e he => h.2.2 e (hs.subset he)⟩
+
+theorem foldl_addStep_room (k : Nat) (es : List Entry) (acc : Code.Stream) (h : RoomSt k acc)
+    (hes : ∀ e ∈ es, e.1.seq + k < u64Mod) : RoomSt k (es.foldl addStep acc) := by
+  induction es generalizing acc with
+  | nil => exact h
+  | cons e es ih =>
+    simp only [List.foldl_cons]
+    apply ih _ _ (fun x hx => hes x (List.mem_cons_of_mem _ hx))
+    rcases addStep_cases acc e with ⟨_, he⟩ | ⟨_, _, he⟩
+    · rw [he]; exact h
+    · rw [he]; exact roomSt_push h _ _ (hes e (by simp))
+
+theorem restart_room (q : Quirks) (k : Nat) (s : Code.Stream) (h : RoomSt k s) : RoomSt k (restart q s) := by
+  have hr : RoomSt k (rebuild s.entries) := by
+    rw [rebuild_def]
+    have hk : 0 + k < u64Mod := by have := h.1; omega
+    exact foldl_addStep_room k s.entries Stream.new ⟨hk, hk, fun e he => by cases he⟩ h.2.2
+  unfold restart raiseLastId
+  split
+  · split
+    · exact ⟨h.2.1, h.2.1, hr.2.2⟩
+    · exact hr
+  · exact hr
+
 theorem step_seq_room (q : Quirks) (r : Run) (op : Op) (k : Nat)
-    (hk : r.st.atomSeq + (k + 1) < u64Mod) (hop : seqRoom (k + 1) op) :
-    (step q r op).st.atomSeq + k < u64Mod ∧ ((step q r op).wrapped = r.wrapped) := by
+    (hk : RoomSt (k + 1) r.st) (hop : seqRoom (k + 1) op) :
+    RoomSt k (step q r op).st ∧ ((step q r op).wrapped = r.wrapped) := by
+  have hk0 := hk.mono
   cases op with
   | addAuto now f =>
     have hnw : wrapsAt now r.st = false := by
-      simp only [wrapsAt, Bool.and_eq_false_iff, decide_eq_false_iff_not]; right; omega
+      simp only [wrapsAt, Bool.and_eq_false_iff, decide_eq_false_iff_not]; right; have := hk.1; omega
     refine ⟨?_, by rw [step_addAuto_wrapped, hnw, Bool.or_false]⟩
     simp only [step]
     rcases xaddAuto_cases q now f r.st with ⟨_, _, he⟩ | ⟨_, he⟩
-    · rw [he]; simp only; omega
+    · rw [he]; exact hk0
     · rw [he]
       simp only [addAuto]
+      have h1k := hk.1
       rcases nextAuto_cases q now r.st with ⟨h1, h⟩ | ⟨h1, h2, h3, h4, h⟩ | ⟨h1, h2, h3, h4, h⟩ | ⟨h1, h2, h⟩
-      · rw [h]; simp only [u64Mod] at *; omega
+      · rw [h]; exact roomSt_push hk0 ⟨now, 0⟩ f (by simp only [u64Mod] at *; omega)
       · omega
       · omega
-      · rw [h, Nat.mod_eq_of_lt (by omega)]; simp only; omega
+      · rw [h, Nat.mod_eq_of_lt (by omega)]
+        exact roomSt_push hk0 ⟨r.st.atomMs, r.st.atomSeq + 1⟩ f (by simp only; omega)
   | addId id f =>
     simp only [step]
     simp only [seqRoom] at hop
     rcases addWithId_cases id f r.st with ⟨_, he⟩ | ⟨_, _, he⟩ | ⟨hgt, _, he⟩
-    · rw [he]; exact ⟨by simp only; omega, rfl⟩
-    · rw [he]; exact ⟨by simp only; omega, rfl⟩
-    · rw [he]; exact ⟨by simp only [push]; omega, rfl⟩
-  | del ids => simp only [step, Code.delete, and_true]; omega
+    · rw [he]; exact ⟨hk0, rfl⟩
+    · rw [he]; exact ⟨hk0, rfl⟩
+    · rw [he]; exact ⟨roomSt_push hk0 id f (by omega), rfl⟩
+  | del ids =>
+    simp only [step, Code.delete]
+    exact ⟨roomSt_sub hk0 _ _ (deleteIds_sublist _ _), by first | rfl | trivial⟩
   | trimCount n =>
     simp only [step, trimByCount]
-    split <;> simp only [and_true] <;> omega
+    split
+    · exact ⟨hk0, by first | rfl | trivial⟩
+    · exact ⟨roomSt_sub hk0 _ _ (List.drop_sublist _ _), by first | rfl | trivial⟩
   | trimMinId m =>
     simp only [step, trimByMinId]
-    split <;> simp only [and_true] <;> omega
+    split
+    · exact ⟨hk0, by first | rfl | trivial⟩
+    · exact ⟨roomSt_sub hk0 _ _ (List.drop_sublist _ _), by first | rfl | trivial⟩
+  | restart =>
+    simp only [step]
+    exact ⟨restart_room q k r.st hk0, by first | rfl | trivial⟩
 
 theorem foldl_no_wrap (q : Quirks) (ops : List Op) (r : Run)
-    (hk : r.st.atomSeq + ops.length < u64Mod) (hops : ∀ op ∈ ops, seqRoom ops.length op) :
+    (hk : RoomSt ops.length r.st) (hops : ∀ op ∈ ops, seqRoom ops.length op) :
     (ops.foldl (step q) r).wrapped = r.wrapped := by
   induction ops generalizing r with
   | nil => rfl
   | cons op ops ih =>
     simp only [List.foldl_cons, List.length_cons] at hk hops ⊢
-    have h1 := step_seq_room q r op ops.length (by omega) (hops op (by simp))
+    have h1 := step_seq_room q r op ops.length hk (hops op (by simp))
     rw [ih _ h1.1, h1.2]
     intro op' hop'
     have := hops op' (List.mem_cons_of_mem _ hop')
